@@ -382,7 +382,7 @@ def _renumber_event(ev, pos, delta):
             if "b" in w:
                 w["b"] = sh(w["b"])
 
-    for k in ("r", "c", "if", "m", "f", "d", "cp", "host"):
+    for k in ("r", "c", "if", "m", "f", "d", "cp", "host", "same_as"):
         if k in ev and ev[k] is not None:
             ev[k] = sh(ev[k])
     if "dst" in ev and ev["dst"] != "exit":
